@@ -29,6 +29,10 @@ func checkC17(c *Check) {
 	ruleDirectWrite(c, p, "R17.7")
 	ruleBuffersRefetched(c, p, "R17.8", "Writer", "Reader", "CompressingReader")
 	ruleStreamFieldsRearmed(c, p, "R17.9")
+	c.RuleDoc["R17.14"] = "Size() reports a content size only once a header has been parsed for the current stream (= the Size part of R19.6): a Reset Reader is like a new one"
+	c.only(func(k string) bool { return k == "lz4.Reader.Size" }, func() { ruleContentSize(c, p, "R17.14") })
+	ruleObserversPure(c, p, "R17.15")
+	c.RuleDoc["R17.15"] = "observer methods (Size, isNotConcurrent, ErrorR, isLegacy) read no stream and change no field"
 	ruleWritesFailAfterClose(c, p, "R17.13")
 	c.RuleDoc["R17.13"] = "after Close, Write and ReadFrom return a non-nil error"
 	rulePendingConsumedOnce(c, p, "R17.12")
